@@ -44,7 +44,7 @@ RULE = ('models with 3-6 functions, an external entity with 2 bridges, a class w
         'hash of (model rows, invocation).')
 ASSUMPTIONS = ['reference call semantics in vf/checks/c15.py + vf/oalsem.py; division and modulo are not generated',
                'constants are read by their bare name (the spelling the interpreter resolves)',
-               'elements called from where clauses and loop conditions have no effects on the model']
+               'elements called from where clauses, loop conditions and right operands of and / or have no effects on the model']
 LEVEL_TEXT = ('Random exploration with a reference evaluator: generated call graphs over all kinds of callable '
               'model elements, invoked from Python and OAL, results and final instance population compared '
               'with an independent evaluation; held on all explored invocations.')
@@ -90,8 +90,13 @@ def call_node(e, args, target=None):
 
 
 class ModelGen(object):
-    def __init__(self, rng):
+    def __init__(self, rng, impure_logic=False, case='lower'):
         self.rng = rng
+        self.impure_logic = impure_logic      # effects allowed in the right operand of and / or
+        self.case = case                      # keyword case of the rendered bodies
+        import random
+        self.render_rng = random.Random(7)    # rendering never draws from the generator's stream
+        self.pure_only = 0
         self.elems = []
         self.enum = ('Color', ['Red', 'Green', 'Blue', 'Cyan', 'Magenta'][:rng.randint(3, 5)])
         rng.shuffle(self.enum[1])
@@ -105,8 +110,14 @@ class ModelGen(object):
         r.shuffle(kinds)
         pure = Elem('f', 'pure_fn', INT, [('n', INT)])
         pure.body = [oalsem.return_(oalsem.bin_('+', oalsem.param('n'), oalsem.lit(1)))]
-        pure.text = om.render(om.body(pure.body))
+        pure.text = om.render(om.body(pure.body), self.render_rng, case=self.case)
         self.elems.append(pure)
+        if self.impure_logic:
+            eff = Elem('f', 'effect_fn', BOOL, [])
+            eff.body = [oalsem.create('k', 'K'), oalsem.return_(oalsem.lit(True))]
+            eff.text = om.render(om.body(eff.body), self.render_rng, case=self.case)
+            eff.pure = False
+            self.elems.append(eff)
         for i, k in enumerate(kinds):
             ret = r.choice((INT, INT, STR, BOOL, None))
             params = []
@@ -119,7 +130,7 @@ class ModelGen(object):
         for i, e in enumerate(self.elems):
             if e.body is None:
                 e.body = self.body(e, i)
-                e.text = om.render(om.body(e.body)) if e.body else ''
+                e.text = om.render(om.body(e.body), self.render_rng, case=self.case) if e.body else ''
                 e.pure = self.is_pure(e)
         # derived attribute of K: integer, computed from self.N and a call
         # the derived attribute calls a function without effects (it is read by the harness itself)
@@ -132,7 +143,7 @@ class ModelGen(object):
                          oalsem.if_(oalsem.un('not_empty', oalsem.var('o2')),
                                     [oalsem.assign(oalsem.attr(oalsem.self_(), 'der'), oalsem.bin_('+', expr, other))],
                                     [], [oalsem.assign(oalsem.attr(oalsem.self_(), 'der'), expr)])]
-        self.der_text = om.render(om.body(self.der_body))
+        self.der_text = om.render(om.body(self.der_body), self.render_rng, case=self.case)
 
     def is_pure(self, e):
         by_name = dict((x.name, x) for x in self.elems)
@@ -166,7 +177,8 @@ class ModelGen(object):
         k = r.random()
         locals_ = locals_ or {}
         if depth > 0 and k < 0.35:
-            cands = [e for e in self.elems[:rank] if e.ret == ty and e.kind != 'iop']
+            cands = [e for e in self.elems[:rank] if e.ret == ty and e.kind != 'iop'
+                     and (e.pure or not self.pure_only)]
             if cands:
                 c = r.choice(cands)
                 return call_node(c, self.args(c, cur, rank, depth, locals_=locals_))
@@ -203,8 +215,17 @@ class ModelGen(object):
             return oalsem.bin_(r.choice(('<', '<=', '==', '!=', '>')),
                                self.expr(INT, cur, rank, depth - 1, locals_, selected),
                                self.expr(INT, cur, rank, depth - 1, locals_, selected))
-        return oalsem.bin_(r.choice(('and', 'or')), self.expr(BOOL, cur, rank, depth - 1, locals_, selected),
-                           self.expr(BOOL, cur, rank, depth - 1, locals_, selected))
+        # whether and / or evaluate their right operand when the left one decides is not a language rule
+        # this check relies on: the right operand has no effects (unless asked for: C08 compares variants)
+        left = self.expr(BOOL, cur, rank, depth - 1, locals_, selected)
+        if not self.impure_logic:
+            self.pure_only += 1
+        try:
+            right = self.expr(BOOL, cur, rank, depth - 1, locals_, selected)
+        finally:
+            if not self.impure_logic:
+                self.pure_only -= 1
+        return oalsem.bin_(r.choice(('and', 'or')), left, right)
 
     def body(self, e, rank):
         r = self.rng
@@ -231,6 +252,16 @@ class ModelGen(object):
             v = self.fresh()
             stmts.append(oalsem.assign(oalsem.var(v), rec))
             locals_[v] = e.ret
+        if self.impure_logic and r.random() < 0.6:
+            # a deciding left operand and a right operand with an effect
+            eff = [x for x in self.elems[:rank] if x.name == 'effect_fn']
+            if eff:
+                op = r.choice(('and', 'or'))
+                left = oalsem.lit(op == 'or') if r.random() < 0.7 else self.expr(BOOL, e, rank, 1, locals_)
+                v = self.fresh()
+                if v not in locals_ or locals_[v] == BOOL:
+                    stmts.append(oalsem.assign(oalsem.var(v), oalsem.bin_(op, left, call_node(eff[0], {}))))
+                    locals_[v] = BOOL
         for _ in range(r.randint(0, 3)):
             k = r.random()
             if k < 0.5:
